@@ -18,6 +18,7 @@ Definition event_target (ev : event) : option string :=
   | EReap id _ => Some id
   | ENotify _ _ _ _ => None
   | EBootstrap _ => None
+  | ELead _ => None
   end.
 
 (* the reap timeout configured for the role of a server, in ms *)
@@ -33,6 +34,7 @@ Definition removal_justified (p : params) (s : server) (ev : event) : Prop :=
   | EReap id silence => id = sid s /\ (0 < timeout_for p s)%N /\ (timeout_for p s < silence)%N
   | ENotify _ _ _ _ => False
   | EBootstrap _ => False
+  | ELead _ => False
   end.
 
 (* ---- lists ---- *)
@@ -150,7 +152,7 @@ Qed.
 
 Lemma step_kc p st ev : kept_or_checked (cfg st) (cfg (fst (step p st ev))).
 Proof.
-  destruct ev as [id addr res hl|servers|id addr voter res|id|id sil]; cbn [step].
+  destruct ev as [id addr res hl|servers|id addr voter res|id|id sil|lid]; cbn [step].
   - unfold notify.
     destruct ((expect p =? 0)%N || boot st || hl); [now left|].
     destruct (mem id (map fst (notifying st))); [now left|].
@@ -163,20 +165,21 @@ Proof.
     destruct (raft_bootstrap (self p) (cfg st) (voters_of servers)) as [c|] eqn:E; [|now left].
     apply raft_bootstrap_check in E. right. cbn. tauto.
   - unfold join.
-    destruct (negb (has_vote (cfg st) (self p))); [now left|].
+    destruct (negb (has_vote (cfg st) (serving p st))); [now left|].
     destruct (negb res); [now left|].
-    pose proof (join_scan_kc (self p) id addr voter (cfg st) (cfg st) false) as H.
-    destruct (join_scan (self p) (cfg st) (cfg st) id addr voter false) as [|c|c cr]; [now left|exact H|].
-    destruct (leader_change (self p) c _) as [c'|] eqn:E; [|exact H].
+    pose proof (join_scan_kc (serving p st) id addr voter (cfg st) (cfg st) false) as H.
+    destruct (join_scan (serving p st) (cfg st) (cfg st) id addr voter false) as [|c|c cr]; [now left|exact H|].
+    destruct (leader_change (serving p st) c _) as [c'|] eqn:E; [|exact H].
     apply leader_change_check in E. right. cbn. tauto.
   - unfold remove.
-    destruct (leader_change (self p) (cfg st) (RemoveServer id)) as [c|] eqn:E; [|now left].
+    destruct (leader_change (serving p st) (cfg st) (RemoveServer id)) as [c|] eqn:E; [|now left].
     apply leader_change_check in E. right. cbn. tauto.
   - unfold reap.
     destruct (find_server (cfg st) id) as [s|]; [|now left].
     destruct (reap_due p (negb (svoter s)) sil); [|now left].
-    destruct (leader_change (self p) (cfg st) (RemoveServer id)) as [c|] eqn:E; [|now left].
+    destruct (leader_change (serving p st) (cfg st) (RemoveServer id)) as [c|] eqn:E; [|now left].
     apply leader_change_check in E. right. cbn. tauto.
+  - unfold transfer. destruct (_ && _ && _); now left.
 Qed.
 
 Lemma step_unique p st ev : unique (cfg st) -> unique (cfg (fst (step p st ev))).
@@ -291,7 +294,7 @@ Lemma step_other p st ev s :
   In s (cfg st) -> event_target ev <> Some (sid s) -> In s (cfg (fst (step p st ev))).
 Proof.
   intros Hin Ht.
-  destruct ev as [id addr res hl|servers|id addr voter res|id|id sil]; cbn [step event_target] in *.
+  destruct ev as [id addr res hl|servers|id addr voter res|id|id sil|lid]; cbn [step event_target] in *.
   - destruct (step_kc p st (ENotify id addr res hl)) as [E|E]; cbn [step] in E; [now rewrite E|].
     unfold notify in *.
     destruct ((expect p =? 0)%N || boot st || hl); [exact Hin|].
@@ -306,23 +309,24 @@ Proof.
     apply raft_bootstrap_check in Eb. destruct Eb as (E0 & _). rewrite E0 in Hin. destruct Hin.
   - assert (Hne : sid s <> id) by (intros E; apply Ht; now rewrite E).
     unfold join.
-    destruct (negb (has_vote (cfg st) (self p))); [exact Hin|].
+    destruct (negb (has_vote (cfg st) (serving p st))); [exact Hin|].
     destruct (negb res); [exact Hin|].
-    pose proof (join_scan_other (self p) id addr voter s Hne (cfg st) (cfg st) false Hin) as H.
-    destruct (join_scan (self p) (cfg st) (cfg st) id addr voter false) as [|c|c cr]; [exact Hin|exact H|].
-    destruct (leader_change (self p) c _) as [c'|] eqn:E; [|exact H].
+    pose proof (join_scan_other (serving p st) id addr voter s Hne (cfg st) (cfg st) false Hin) as H.
+    destruct (join_scan (serving p st) (cfg st) (cfg st) id addr voter false) as [|c|c cr]; [exact Hin|exact H|].
+    destruct (leader_change (serving p st) c _) as [c'|] eqn:E; [|exact H].
     apply leader_change_check in E. destruct E as [-> _]. cbn [fst cfg set_cfg].
     apply apply_change_other; [exact H|]. destruct voter; [|destruct cr]; exact Hne.
   - assert (Hne : sid s <> id) by (intros E; apply Ht; now rewrite E).
     unfold remove.
-    destruct (leader_change (self p) (cfg st) (RemoveServer id)) as [c|] eqn:E; [|exact Hin].
+    destruct (leader_change (serving p st) (cfg st) (RemoveServer id)) as [c|] eqn:E; [|exact Hin].
     apply leader_change_check in E. destruct E as [-> _]. cbn. now apply remove_first_other.
   - assert (Hne : sid s <> id) by (intros E; apply Ht; now rewrite E).
     unfold reap.
     destruct (find_server (cfg st) id) as [s'|]; [|exact Hin].
     destruct (reap_due p (negb (svoter s')) sil); [|exact Hin].
-    destruct (leader_change (self p) (cfg st) (RemoveServer id)) as [c|] eqn:E; [|exact Hin].
+    destruct (leader_change (serving p st) (cfg st) (RemoveServer id)) as [c|] eqn:E; [|exact Hin].
     apply leader_change_check in E. destruct E as [-> _]. cbn. now apply remove_first_other.
+  - unfold transfer. destruct (_ && _ && _); exact Hin.
 Qed.
 
 (* ---- role_as_requested ---- *)
@@ -401,7 +405,7 @@ Theorem role_as_requested p st id addr voter resolves :
   In (mk_server id addr voter) (cfg (fst (join p st id addr voter resolves))).
 Proof.
   intros [Hni Hna] Hres. unfold join in *.
-  destruct (negb (has_vote (cfg st) (self p))); [now contradiction Hres|].
+  destruct (negb (has_vote (cfg st) (serving p st))); [now contradiction Hres|].
   destruct (negb resolves); [now contradiction Hres|].
   destruct (has_exact_dec id addr (cfg st)) as [(srv & Hsrv & Hex)|Hno].
   - (* the node is there with this id and address *)
@@ -412,13 +416,13 @@ Proof.
       - left. assert (s = srv) by (eapply (NoDup_map_eq sid); eauto; congruence). subst s. auto.
       - destruct (String.eqb_spec (saddr s) addr) as [E|N2]; [|now right].
         assert (s = srv) by (eapply (NoDup_map_eq saddr); eauto; congruence). subst s. contradiction. }
-    rewrite (join_scan_exact (self p) id addr voter (svoter srv) (cfg st) (cfg st) false Hall) in *.
+    rewrite (join_scan_exact (serving p st) id addr voter (svoter srv) (cfg st) (cfg st) false Hall) in *.
     assert (Hexists : existsb (exact id addr) (cfg st) = true).
     { apply existsb_exists. exists srv. split; [assumption|]. apply exact_true. auto. }
     rewrite Hexists in *.
     destruct (Bool.eqb (svoter srv) voter) eqn:Ev.
     + apply eqb_prop in Ev. cbn [fst]. destruct srv as [i a v]. cbn in *. subst. exact Hsrv.
-    + destruct (leader_change (self p) (cfg st) _) as [c'|] eqn:E; [|now contradiction Hres].
+    + destruct (leader_change (serving p st) (cfg st) _) as [c'|] eqn:E; [|now contradiction Hres].
       apply leader_change_check in E. destruct E as [-> _]. cbn [fst cfg set_cfg].
       assert (Hin : In id (ids (cfg st))) by (rewrite <- Eid; now apply in_map).
       destruct voter; cbn [apply_change].
@@ -431,12 +435,12 @@ Proof.
         assert (s = srv) by (eapply (NoDup_map_eq sid); eauto; congruence). subst s.
         rewrite Eid, Eaddr in Hf. exact Hf.
   - (* new node, or a node that comes back with another id or address *)
-    pose proof (join_scan_no_exact (self p) id addr voter (cfg st) (cfg st) false Hno Hni) as H.
-    destruct (join_scan (self p) (cfg st) (cfg st) id addr voter false) as [|c|c cr]; [contradiction|now contradiction Hres|].
+    pose proof (join_scan_no_exact (serving p st) id addr voter (cfg st) (cfg st) false Hno Hni) as H.
+    destruct (join_scan (serving p st) (cfg st) (cfg st) id addr voter false) as [|c|c cr]; [contradiction|now contradiction Hres|].
     destruct H as [-> Hgone].
     assert (Hg : ~ In id (ids c)).
     { apply Hgone. destruct (in_dec string_dec id (ids (cfg st))); [now left | now right]. }
-    destruct (leader_change (self p) c _) as [c'|] eqn:E; [|now contradiction Hres].
+    destruct (leader_change (serving p st) c _) as [c'|] eqn:E; [|now contradiction Hres].
     apply leader_change_check in E. destruct E as [-> _]. cbn [fst cfg set_cfg].
     destruct voter; cbn [apply_change]; rewrite update_first_none by exact Hg;
       apply in_or_app; right; now left.
@@ -474,7 +478,7 @@ Proof.
     - destruct (string_dec t (sid s)) as [->|N]; [reflexivity|]. exfalso. apply Hgone.
       apply in_map. apply step_other; [exact Hin|]. rewrite E. congruence.
     - exfalso. apply Hgone. apply in_map. apply step_other; [exact Hin|]. rewrite E. discriminate. }
-  destruct ev as [id addr res hl|servers|id addr voter res|id|id sil]; cbn [event_target] in Ht; try discriminate;
+  destruct ev as [id addr res hl|servers|id addr voter res|id|id sil|lid]; cbn [event_target] in Ht; try discriminate;
     injection Ht as ->; cbn [removal_justified]; try reflexivity.
   split; [reflexivity|].
   cbn [step] in Hgone. unfold reap in Hgone.
@@ -513,7 +517,7 @@ Lemma check_steps_run p steps : forall st st',
 Proof.
   induction steps as [|[ev o] r IH]; intros st st' H; cbn [check_steps] in H.
   - now injection H as <-.
-  - destruct (result_eqb _ _ && _ && _); [|discriminate]. apply IH in H. exact H.
+  - destruct (result_eqb _ _ && _ && _ && _); [|discriminate]. apply IH in H. exact H.
 Qed.
 
 (* ---- non-vacuity ---- *)
@@ -534,6 +538,18 @@ Example ex_role :
   In (mk_server "n2" "a3" true) (cfg st)
   /\ snd (step ex_p st (EJoin "n2" "a3" false true)) = ROk
   /\ In (mk_server "n2" "a3" false) (cfg (fst (step ex_p st (EJoin "n2" "a3" false true)))).
+Proof. vm_compute. tauto. Qed.
+(* the reaper decides from the configuration as it is now, also when the role was changed while another node led *)
+Example ex_p2 := mk_params "n0" 0 0 20000.    (* voters are never reaped, read replicas after 20 s *)
+Example ex_lead_hist :=
+  [EBootstrap [("n0", "a0")]; EJoin "n1" "a1" true true; EJoin "n2" "a2" true true; EJoin "n3" "a3" false true;
+   EReap "n3" 10000;                     (* read replica, 10 s < 20 s: stays *)
+   ELead "n1"; EJoin "n3" "a3" true true; ELead "n0";
+   EReap "n3" 30000].                    (* now a voter: never reaped, although 30 s > the read-replica timeout *)
+Example ex_lead :
+  map snd (trace ex_p2 init ex_lead_hist) = [ROk; ROk; ROk; ROk; ROk; ROk; ROk; ROk; ROk]
+  /\ In (mk_server "n3" "a3" true) (cfg (run ex_p2 init ex_lead_hist))
+  /\ serving ex_p2 (run ex_p2 init ex_lead_hist) = "n0".
 Proof. vm_compute. tauto. Qed.
 Example ex_reap :
   let st := run ex_p init (firstn 7 ex_hist) in
